@@ -1,5 +1,6 @@
 """C10 - references are rewritten only on request, and a regenerated reference passes."""
 import json
+import re
 import os
 import shutil
 import tempfile
@@ -18,6 +19,30 @@ TEXTS = ['', 'a\n', 'a\nb', 'a\r\nb\r\n', 'x\ry\n', 'été\n日本\n', ' lead\nt
          'line one\nline two\nline three\n', 'a\x0cb\n', 'p q\n']
 
 
+EXTRA_DTYPES = ['uint8', 'uint16', 'uint32', 'uint64', 'int8', 'int16', 'int32', 'float32', 'bool', 'boolean', 'Int64', 'UInt32',
+                'Float64', 'Int8', 'datetime64[ms]', 'datetime64[us]', 'datetime64[ns]', 'datetime64[ns]+frac', 'tz-utc-ns',
+                'tz-london-us', 'timedelta', 'str', 'category-null']
+
+
+def extra_column(name):
+    ts = [pd.Timestamp('2020-01-02'), pd.Timestamp('1999-12-31 10:00:00'), pd.NaT]
+    if name.startswith('datetime64['):
+        if name.endswith('+frac'):
+            return pd.Series([pd.Timestamp('2020-01-02 00:00:00.000000001'), pd.Timestamp('1999-12-31 10:00:00.123456789'), pd.NaT]).astype('datetime64[ns]')
+        return pd.Series(ts).astype(name)
+    if name == 'tz-utc-ns':
+        return pd.Series(ts).astype('datetime64[ns]').dt.tz_localize('UTC')
+    if name == 'tz-london-us':
+        return pd.Series(ts).astype('datetime64[us]').dt.tz_localize('Europe/London')
+    if name == 'timedelta':
+        return pd.Series([pd.Timedelta(seconds=1), pd.Timedelta(days=2), pd.NaT])
+    if name == 'str':
+        return pd.Series(['x', None, 'y'], dtype='str')
+    if name == 'category-null':
+        return pd.Series([None, None, None]).astype('category')
+    return pd.Series([1, 0, 1]).astype(name)
+
+
 def gen_history(rng):
     n = rng.randint(1, 10)
     ops = []
@@ -32,6 +57,9 @@ def gen_history(rng):
                 o['actual'] = [rng.choice([0, 10, 13, 255]) for _ in range(rng.randint(0, 6))]
             elif which == 'frame':
                 o['variant'] = rng.choice([0, 0, 1, 2, 3])
+                if rng.random() < 0.6:
+                    # further columns, one per named dtype (numeric widths, datetime units, timezone-aware, extension types)
+                    o['extra'] = rng.sample(EXTRA_DTYPES, rng.randint(1, 3))
                 o['actual'] = {'a': [rng.randint(0, 5) for _ in range(3)], 'b': [rng.choice(['x', 'y', None]) for _ in range(3)],
                                'c': [rng.choice([0.5, 1.25, None]) for _ in range(3)]}
             else:
@@ -114,6 +142,8 @@ def run_history(ops, pre_existing):
                         df['d'] = pd.Series([pd.Timestamp('2020-01-02'), pd.Timestamp('1999-12-31 10:00:00'), pd.NaT]).astype('datetime64[s]')
                     else:
                         df['b'] = df['b'].astype('category')
+                    for j, name in enumerate(o.get('extra', [])):
+                        df['e%d' % j] = extra_column(name)
                     r.assertDataFrameCorrect(df, ref, kind=o['kind'])
             try:
                 call()
@@ -301,8 +331,15 @@ class C10(core.Prop):
                 if ob['recheck'] is not True:
                     key = 'regen-then-check:' + which
                     if which == 'frame':
-                        if 'Wrong column type' in (ob.get('recheck_msg') or ''):
-                            key += ':parquet-retypes-column'
+                        retyped = sorted(set(re.findall(r'Wrong column type for field \S+ actual: (.*?); expected: (.*?)\)?\n',
+                                                        (ob.get('recheck_msg') or '') + '\n')))
+                        if retyped:
+                            # one key per (dtype given, dtype read back) pair: the listed findings name the pairs that
+                            # do not survive the parquet round trip on the unchanged code; any other pair is new
+                            for a_, e_ in retyped[1:]:
+                                fail('regen-then-check', 'frame: column of dtype %s is read back from the regenerated reference as %s'
+                                     % (a_, e_), 'regen-then-check:frame:parquet-retypes-column:%s->%s' % (a_, e_))
+                            key += ':parquet-retypes-column:%s->%s' % retyped[0]
                         else:
                             key += ':variant%d' % o.get('variant', 0)
                     fail('regen-then-check', '%s: after regeneration the same assertion gives %r %s'
